@@ -519,7 +519,7 @@ def build(case):
         units = [u for u in UNITS if u.coll]
     else:
         units = [UNIT_BY_NAME[nm] for nm in sel]
-    base = stt
+    base = stt.copy()        # which units run is a pure function of the state the prefix reached
     for unit in units:
         if unit.when is not None and not unit.when(base):
             continue
